@@ -39,6 +39,31 @@ def _cmp(tag, got, ref, scale, extra_abs, out, labels=None):
             return
 
 
+WRITTEN_LENGTHS = ["nm", "mm", "dm", "µm", "cm"]
+
+
+def _as_written(spec):
+    """The same graph system with every node volume, edge surface and edge distance written as a text quantity in a length
+    unit of its own (node / edge i uses WRITTEN_LENGTHS[i mod 5]) instead of a bare number in the system's units: same
+    physical values, so the same rate law."""
+    import copy
+    sp = copy.deepcopy(spec)
+    us3 = tuple(spec.get("units", si.DEFAULT))
+    if sp["space"]["type"] != "graph":
+        return sp
+
+    def q(v, i, p):
+        ln = WRITTEN_LENGTHS[i % len(WRITTEN_LENGTHS)]
+        fo = (ln, us3[1], us3[2])
+        return "%r %s%s" % (float(v) * float(si.factor(us3, fo, (p, 0, 0))), ln, "" if p == 1 else str(p))
+    for i, nd in enumerate(sp["space"]["nodes"]):
+        nd["vol"] = q(nd.get("vol", 1.0), i, 3)
+    for i, e in enumerate(sp["space"]["edges"]):
+        e[2] = q(e[2], i + 1, 2)
+        e[3] = q(e[3], i + 2, 1)
+    return sp
+
+
 def check_case(case):
     out = []
     spec = case["spec"]
@@ -48,7 +73,7 @@ def check_case(case):
     n = len(f)
     zeros = [0.0] * n
     try:
-        system = models.build_system(spec)
+        system = models.build_system(_as_written(spec) if case.get("written") else spec)
     except Exception as e:
         return [("C01:build:unexpected-exception", "%s: %s" % (type(e).__name__, e))]
     us = uq.mk_sys(us3)
@@ -249,6 +274,11 @@ def gen_diffusion_graph(tier):
                             "envs": ["e0", "e1"], "space": {"type": "graph", "nodes": nodes, "edges": edges},
                             "state": PRIMES[:2 * n], "units": list(UNITS3[k % 3] if tier == "thorough" else UNITS3[0])}
                     yield {"sub": "diffusion-graph", "spec": spec, "observers": ["kin", "euler"]}
+                    if k % 3 == 0 and n >= 2:
+                        # geometry written as text quantities, each in a length unit of its own; an order-2 reaction makes
+                        # the node volumes matter beyond diffusion
+                        sp2 = dict(spec, reactions=[{"eq": [[["A", 2]], [["B", 1]]], "kf": 0.02, "kr": 0.3}])
+                        yield {"sub": "graph-written", "spec": sp2, "observers": ["kin", "euler"], "written": True}
 
 
 CATALOGUE = [
@@ -526,7 +556,7 @@ def run(ctx):
              gen_reaction),
             ("diffusion law on grids: shapes w,h,d<=3 within the cell bound x boundary combinations x environment "
              "maps (all maps for <=4 cells) x D patterns incl. a zero-D wall", gen_diffusion_grid),
-            ("diffusion law on graphs: all simple graphs on 1..4 nodes x environment maps x D patterns", gen_diffusion_graph),
+            ("diffusion law on graphs: all simple graphs on 1..4 nodes x environment maps x D patterns; every third one again with 2A<->B and its geometry written as text quantities in per-node / per-edge length units", gen_diffusion_graph),
             ("layout: all ordered pairs of an 8-reaction catalogue x 3 environment/cell configurations", gen_layout),
             ("beyond the small scope: 4 species / 3 reactions / 5 environments on 4x3x2-like grids and a 6-node graph, x 5 magnitude "
              "regimes (D 1e-170..1e150, k 1e-15..1e9, volume 1e-6..1e9)", gen_big),
